@@ -276,3 +276,116 @@ func init() {
 		o.MinSites(3)
 	})
 }
+
+// groupMutedReportRule: the mute state the API reports for a group is that group's own.  Three links:
+// the marker keeps it per (route, group key) and reads it back under the same key; the handler asks for the key of
+// the group of the iteration and hands exactly that answer to every alert of that group; the API is wired to it.
+func groupMutedReportRule(o *Ob) {
+	e := o.E
+	// (a) marker: one key function for reading and writing
+	mu := o.Fn("(*am/marker.groupMarker).Muted")
+	sm := o.Fn("(*am/marker.groupMarker).SetMuted")
+	key := "am/marker.newGroupMarkerKey(p0, p1)"
+	o.Site(fnFirst(mu), "marker read")
+	o.Site(fnFirst(sm), "marker write")
+	kf := o.Fn("am/marker.newGroupMarkerKey")
+	{
+		// the key is built from both parameters, each in its own field
+		got := map[string]string{}
+		for _, in := range AllInstrs(kf) {
+			if s, ok := in.(*ssa.Store); ok {
+				if fa, ok := s.Addr.(*ssa.FieldAddr); ok {
+					got[fieldName(fa.X.Type(), fa.Field)] = e.X(kf, s.Val)
+				}
+			}
+		}
+		o.Check(got["routeID"] == "p0" && got["groupKey"] == "p1", "marker-key", "the marker key must be (route id, group key)", fnFirst(kf))
+	}
+	found := L("recv.groups["+key+"]#1", true)
+	st := "recv.groups[" + key + "]#0.mutedBy"
+	o.Table(mu, "muted", []Row{
+		{Name: "unknown group", Assume: A(found.Neg()), Ret: [][]string{Vals("nil"), Vals("false")}},
+		{Name: "known group", Assume: A(found), Ret: [][]string{Vals(st), Vals("(len("+st+") > 0)", "¬(len("+st+") < 1)", "(0 < len("+st+"))", "(len("+st+") != 0)", "¬(len("+st+") == 0)", "!(len("+st+") == 0)")}},
+	})
+	n := 0
+	isNameStore := map[ssa.Instruction]bool{}
+	for _, s := range e.StoresToField(sm, "am/marker.groupStatus", "mutedBy") {
+		n++
+		isNameStore[s] = true
+		a := e.X(sm, s.Addr)
+		// the status written is the one filed under the key, or a fresh one that is filed under it
+		o.Check(e.X(sm, s.Val) == "p2" && (strings.Contains(a, key) || strings.HasPrefix(a, "&complit:am/marker.groupStatus")), "marker-store", "SetMuted must store the given names in the status of (route, group), stores "+e.X(sm, s.Val)+" to "+a, s)
+	}
+	o.Check(n >= 1, "marker-store-site", "SetMuted no longer stores the names", nil)
+	o.Forced(sm, "marker-store-forced", "SetMuted must store the names on every path", func(in ssa.Instruction) bool { return isNameStore[in] })
+	for _, in := range AllInstrs(sm) {
+		if m, ok := in.(*ssa.MapUpdate); ok {
+			o.Check(e.X(sm, m.Key) == key, "marker-insert-key", "a new group status must be filed under the key of (route, group)", m)
+			o.Check(strings.Contains(e.X(sm, m.Value), "complit:am/marker.groupStatus"), "marker-insert-value", "what is filed for a new group must be its new status", m)
+		}
+	}
+	o.Forced(sm, "marker-insert-forced", "the status of a group seen for the first time must be filed in the map", isMapUpdate, found.Neg())
+	// (b) handler
+	fn := o.Fn("(*am/api/v2.API).getAlertGroupsHandler")
+	var gm *ssa.Call
+	for _, in := range AllInstrs(fn) {
+		if c, ok := in.(*ssa.Call); ok && !c.Call.IsInvoke() && e.X(fn, c.Call.Value) == "recv.groupMutedFunc" {
+			o.Check(gm == nil, "muted-call-once", "the group's mute state is asked for more than once", c)
+			gm = c
+		}
+	}
+	o.Require(gm != nil, "muted-call", "the handler no longer asks for the group's mute state", nil)
+	o.Site(gm, "GET /alerts/groups: mute state of the group")
+	a0, a1 := e.X(fn, gm.Call.Args[0]), e.X(fn, gm.Call.Args[1])
+	grp := strings.TrimSuffix(a0, ".RouteID")
+	o.Check(strings.HasSuffix(a0, "[i].RouteID") && a1 == grp+".GroupKey", "muted-args", "the mute state must be asked for (RouteID, GroupKey) of the group of the iteration", gm)
+	names := e.X(fn, gm) + "#0"
+	cs := e.Calls(fn, "am/api/v2.AlertToOpenAPIAlert")
+	o.Check(len(cs) >= 1, "convert", "the handler no longer converts the alerts of a group", nil)
+	for _, c := range cs {
+		o.Check(e.Arg(c, 3) == names, "muted-names", "every alert of a group must carry the names the marker returned for this group in this iteration, gets "+clip(e.Arg(c, 3)), c)
+		o.Check(strings.HasPrefix(e.Arg(c, 0), grp+".Alerts["), "muted-group", "the alerts converted must be those of the group whose mute state was asked for", c)
+		o.Check(InstrDominates(gm, c), "muted-order", "the mute state must be known before the group's alerts are converted", c)
+	}
+	// (c) wiring
+	an := o.Fn("am/api.New")
+	nc := o.One(e.Calls(an, "am/api/v2.NewAPI"), "wiring", "api.New must build the v2 API", an)
+	has := false
+	for i := range nc.Common().Args {
+		if strings.HasSuffix(e.Arg(nc, i), "Options.GroupMutedFunc") {
+			has = true
+		}
+	}
+	o.Check(has, "wiring-arg", "the v2 API must be given Options.GroupMutedFunc", nc)
+	v2n := o.Fn("am/api/v2.NewAPI")
+	n = 0
+	for _, s := range e.StoresToField(v2n, "am/api/v2.API", "groupMutedFunc") {
+		n++
+		v, isP := s.Val.(*ssa.Parameter)
+		if o.Check(isP, "wiring-field", "API.groupMutedFunc must be the function given to NewAPI", s) {
+			// the parameter that api.New fills with GroupMutedFunc
+			idx := -1
+			for i, p := range v2n.Params {
+				if p == v {
+					idx = i
+				}
+			}
+			o.Check(idx >= 0 && strings.HasSuffix(e.Arg(nc, idx), "Options.GroupMutedFunc"), "wiring-param", "API.groupMutedFunc is not the parameter that receives Options.GroupMutedFunc", s)
+		}
+	}
+	o.Check(n == 1, "wiring-field-site", "NewAPI must set API.groupMutedFunc exactly once", nil)
+}
+
+func clip(s string) string {
+	if len(s) > 160 {
+		return s[:160] + "…"
+	}
+	return s
+}
+
+func init() {
+	reg("C15", "C15.7", "T6,T8", "the API reports each group's own mute state: marker kept and read per (route, group key); GET /alerts/groups hands every alert the names returned for its group in this iteration; the API is wired to Options.GroupMutedFunc", func(o *Ob) {
+		groupMutedReportRule(o)
+		o.MinSites(3)
+	})
+}
